@@ -286,6 +286,28 @@ theorem C19_vector_never_shrinks (size : Nat) (old : List Nat) (pixels : List In
   unfold vectorFill
   rw [gen]; simp; omega
 
+private theorem sumQ_div (l : HistQ) (S : Rat) : sumQ (l.map fun kv => (kv.1, kv.2 / S)) = sumQ l / S := by
+  induction l with
+  | nil => simp [sumQ]
+  | cons kv rest ih =>
+    simp only [sumQ, List.map_cons, List.foldr_cons] at ih ⊢
+    rw [ih]; ring
+
+/-- fractional bins (any rational weights, e.g. after an earlier normalize, an accumulate-fill on top of it, or a re-weighting):
+    after `normalize()` the bins sum to 1 whenever `sum()` is not zero … -/
+theorem C19_normalizeQ_sum_one (h : HistQ) (hs : sumQ h ≠ 0) : sumQ (normalizeQ h) = 1 := by
+  unfold normalizeQ
+  rw [sumQ_div]
+  field_simp
+
+/-- … and `normalize()` is idempotent: a second call changes nothing -/
+theorem C19_normalizeQ_idempotent (h : HistQ) (hs : sumQ h ≠ 0) : normalizeQ (normalizeQ h) = normalizeQ h := by
+  have h1 := C19_normalizeQ_sum_one h hs
+  generalize hg : normalizeQ h = g at h1
+  unfold normalizeQ
+  rw [h1]
+  simp
+
 /-- normalisation in exact arithmetic: the bins sum to 1 whenever the histogram has positive mass -/
 theorem C19_normalize_sum_one (h : Hist) (hm : h.mass ≠ 0) :
     ((h.map fun kv => ((kv.2 : Nat) : Rat) / ((h.mass : Nat) : Rat))).sum = 1 := by
